@@ -305,6 +305,8 @@ def invariance_case(draw):
                                    min_size=k, max_size=k))
     case['shifts'] = draw(st.lists(st.sampled_from([0.0, 0.5, 2.0, 17.25, 1000.0]),
                                    min_size=k, max_size=k))
+    # individual data RDMs in very small / large units (exact power-of-two factors)
+    case['units'] = draw(st.lists(st.sampled_from([0, 0, 0, -60, -90, 40]), min_size=k, max_size=k))
     return case
 
 
@@ -318,6 +320,7 @@ def check_invariance(case):
     b = a * np.array(case['scales'], dtype=float).reshape(-1, 1)
     if method in cref.CORR_TYPES:
         b = b + np.array(case['shifts'], dtype=float).reshape(-1, 1)
+    b = b * (2.0 ** np.array(case.get('units', [0] * len(b)), dtype=float)).reshape(-1, 1)
     lo2, up2 = lib(boot_noise_ceiling, make_rdms(b, case['groups']), method=method,
                    rdm_descriptor='grp', on_error='violation', sig=sig + ':raises')
     try:    # a vanishing leave-one-out pool has no defined direction: outside the domain
@@ -335,6 +338,7 @@ def classify_invariance(case):
     labels, nt = base_labels(case)
     labels.append('method:' + case['method'])
     labels.append('scales:' + ('equal' if len(set(case['scales'])) == 1 else 'different'))
+    labels.append('units:' + ('mixed' if len(set(case.get('units', [0]))) > 1 else 'same'))
     return labels, nt and len(set(case['scales'])) > 1
 
 
